@@ -152,6 +152,7 @@ func lockDiscipline(r *Run, rule, pkg, typ, mtxField string, guarded []string, e
 
 func checkC15(r *Run) {
 	P := r.P
+	moreC15(r)
 	r.NotDecided("merge-iterator output (order, duplicates, tombstones over arbitrary ranges) — a runtime property of cacheMergeIterator/memIterator")
 	r.NotDecided("that the overlay view equals parent+writes as a map (follows from R2–R4 only together with the iterator semantics)")
 
